@@ -22,4 +22,8 @@ CHECKS = {
    technique="bounded-exhaustive enumeration of variant lists per example (all position subsets / coordinates / rows) against Python string edits, tensors captured with an identity model",
    text="Batches of 1-3 sequences; deletions: every subset of <=3 positions per example independently (incl. positions inside the trimmed flank), both trim sides; insertions: every set of <=2 distinct coordinates x characters, both sides, both row orders; substitutions: every <=2 rows per example incl. duplicates, conflicts (must raise) and out-of-range rows (must raise); X and X_var reaching func are captured through predict() with an identity model and compared with string-level edits; extra args alignment and input immutability are checked.",
    note="Non-negative indices only; insertion at coordinate len(X) may be accepted (append) or rejected."),
+ "C09": dict(level="exploration", design_ref="3/C09",
+   technique="bounded-exhaustive enumeration of (alphabet, length, window, batch size, output kind, target, args) against one-mutant-at-a-time forward passes of an exact-integer model",
+   text="A in 2..5, L in 1..8 (+12,17,30), every window 0<=start<end<=L plus the default end=-1 for every start, N in {1,2}, every batch size 1..A*W+1 (L<=5) or boundary sizes, tensor / trailing-dimension / tuple outputs, per-example args, targets None/int/slice, hypothetical on/off: y0 and every y_hat[n,c,p-start] compared exactly with a forward pass on the single mutant; the attribution compared with the documented formula recomputed by plain loops.",
+   note="CPU only; negative end other than -1 not exercised; tuple outputs only with raw_outputs=True."),
 }
